@@ -120,17 +120,19 @@ def run(ctx):
     ctx.traces_vs_impl += n
     # ---- streams
     sts = build_streams(ctx)
-    apis = [("rf", None), ("rdf:1", None), ("rdf:0", None), ("recv", None)]
+    apis = [("rf", 0), ("rdf:1", 0), ("rdf:0", 0), ("recv", 0), ("rdf:1", 1), ("recvdata:0", 1)]
     sessions, meta = [], []
     for kind, frames in sts:
         stream = b"".join(f.enc() for f in frames)
-        for api, _ in apis:
+        for api, fire in apis:
+            if fire and kind not in ("seq", "hdr-inmsg", "ping-len"):
+                continue
             if kind in ("hdr", "hdr-inmsg", "close-code") and api in ("rdf:0", "recv") and kind != "hdr-inmsg":
                 if api == "recv":
                     continue
             ops = [api] * (len(frames) + 1)
-            sessions.append(({}, [("chunk", stream)], ops))
-            meta.append((kind, frames, api))
+            sessions.append(({"fire": fire} if fire else {}, [("chunk", stream)], ops))
+            meta.append((kind, frames, api + (":fire" if fire else "")))
     res = rx.run_sessions(ctx, "session:validate", sessions)
     legal_lines, idx = [], []
     for kind, frames in sts:
@@ -165,7 +167,7 @@ def run(ctx):
                 if g.op in (0, 1, 2):
                     inmsg = g.fin == 0
             cause = cause_of(f, inmsg)
-            if api == "rf" and cause in ("continuation-without-message", "data-frame-inside-message"):
+            if api.startswith("rf") and cause in ("continuation-without-message", "data-frame-inside-message"):
                 continue       # sequencing is a message-level rule; recv_frame returns raw frames
             if first_exc is None or first_exc not in ("X:PROTO", "X:PAYLOAD"):
                 ctx.violate("illegal-frame-raises-protocol-error", cause, inp, f"PROTO when frame #{first_bad} ({f.desc()}) is read",
